@@ -60,6 +60,20 @@ Theorem C15_request_served_by_own_runtime : forall fpf valf fl,
 Proof. exact run_observes. Qed.
 Print Assumptions C15_request_served_by_own_runtime.
 
+(** with r: …  — entering installs r for this thread only and leaving restores exactly the runtime
+    the thread had before, whatever the other threads did in between (same runtime object
+    included). *)
+Theorem C15_enter_exit_restores : forall fpf valf fl,
+  enter_atomic fl = true -> exit_atomic fl = true ->
+  forall s t r rest, prog (tl s t) = Enter r :: Exit :: rest ->
+  forall sched, ~ In t sched ->
+  let s1 := run fpf valf fl sched (step fpf valf fl t s) in
+  runtimes s1 t = Some r /\
+  runtimes (step fpf valf fl t s1) t = runtimes s t /\
+  previous (step fpf valf fl t s1) t = previous s t.
+Proof. exact enter_exit_restores. Qed.
+Print Assumptions C15_enter_exit_restores.
+
 (** Concurrent register: if the read-modify-write of the table is atomic then, once all programs
     have finished, every alias any thread registered is present, and the table is the replay of
     the register writes in the order they took effect: each alias maps to its LAST writer. *)
